@@ -737,6 +737,45 @@ func run(r *mon.Run) {
 			}
 		}
 	}
+	// (7) indexes with very many entries (collection sizes that are no CBOR head boundary: 1000, 1024, 1025, 2049, 4097,
+	// 5000): every exchange must come back, and an entry far down the index that points outside the responses section
+	// must be refused like one at the top
+	manyN := []int{1000, 1024, 1025, 2049, 4097, 5000}
+	for mi, n := range manyN {
+		if !r.Mine(20 + mi) {
+			continue
+		}
+		for _, ver := range []string{"b1", "b2"} {
+			if ver == "b1" && !r.Thorough && n != 1025 {
+				continue
+			}
+			sp := &rbundle.BSpec{Version: ver}
+			for k := 0; k < n; k++ {
+				sp.Exchanges = append(sp.Exchanges, rbundle.BExchange{URL: fmt.Sprintf("https://example.com/r/%05d", k), Status: "200", Headers: hdrs("content-type", "text/plain"), Body: []byte(fmt.Sprintf("body %d", k))})
+			}
+			if ver == "b1" {
+				sp.Primary = "https://example.com/r/00000"
+			}
+			x, fs := sp.Build(nil)
+			judge(r, x, "many-entries", fmt.Sprintf("%s/n=%d/pristine", ver, n), true, 1)
+			for _, j := range []int{0, n / 2, 1023, 1024, n - 2, n - 1} {
+				if j < 0 || j >= n {
+					continue
+				}
+				for _, role := range []string{"index-off", "index-len"} {
+					f, ok := rbundle.FieldByRole(fs, fmt.Sprintf("%s[%d][0]", role, j))
+					if !ok {
+						r.HarnessFail("no field %s[%d][0]", role, j)
+						continue
+					}
+					for _, v := range []uint64{uint64(len(x)), uint64(len(x)) + f.True, 1 << 32, 1<<63 - 1, ^uint64(0) - f.True/2} {
+						y, _ := sp.Build(map[string]rbundle.Ov{f.Role: {Val: v, Info: -1}})
+						judge(r, y, "many-entries", fmt.Sprintf("%s/n=%d/%s[%d]=%d", ver, n, role, j, v), false, 7)
+					}
+				}
+			}
+		}
+	}
 	// keep the import used
 	_ = sort.Strings
 }
